@@ -111,6 +111,33 @@ def c09_search(tier, seed, tmp, broken, k_fail, s_fail, ev_cov):
             n_incomplete += 1
             s_fail.append(("op", "ec.search.incomplete %d %d %d %d %d %d : " % t + sline + " => " + r + "   (no result inside the double-hour of this instant)",
                            sline + " => must contain an instant of that double-hour"))
+    # searches for characters that are NOT those of the instant: one pillar replaced by a neighbour of the same branch
+    # (hour pillar + 12k keeps the branch and breaks the Five-Rats stem; month pillar + 12k breaks the Five-Tigers stem), or
+    # the day pillar moved with the hour pillar kept. Whatever comes back must still carry exactly the characters asked for
+    # (soundness) and must be what the model returns (mostly nothing).
+    psearch = []
+    for (t, h, j), sline in list(zip(meta, searches))[:(400 if tier == "quick" else 4000)]:
+        f = sline.split()
+        ec = [int(x) for x in f[1:5]]
+        k = rng.choice([1, 2, 3, 4])
+        which = rng.choice([3, 3, 1, 2, 0])
+        ec2 = list(ec)
+        ec2[which] = (ec[which] + (12 * k if which in (1, 3) else rng.choice([1, 10, 12, 59]))) % 60
+        psearch.append("ec.search %d %d %d %d %s %s" % (ec2[0], ec2[1], ec2[2], ec2[3], f[5], f[6]))
+    PR = run(TYMEH, "exec", psearch)
+    PM = run(TYMED, "exec", psearch)
+    n_pfound = 0
+    for sline, r, mline in zip(psearch, PR, PM):
+        if r != mline:
+            k_fail.append(("op", 0, sline + " => " + r, sline + " => " + mline))
+        if r == "refused":
+            continue
+        ecs = " ".join(sline.split()[1:5])
+        for pt in [q.strip() for q in r.split("|")][1:]:
+            n_pfound += 1
+            back_ops.append("ec.of " + pt)
+            back_meta.append((sline, ecs))
+    ev_cov["perturbed_searches"] = {"searches": len(psearch), "instants_returned": n_pfound, "sample": psearch[:3]}
     BH = run(TYMEH, "exec", back_ops)
     BS = run(TYMED, "specexec", back_ops)
     n_unsound = 0
@@ -135,7 +162,7 @@ PROP = {
     "streams": [
         {"name": "c09.hours"},   # all 60 day pillars x 24 hours through the instant view and the lunar-hour route
     ],
-    "ops": c09_ops,
+    "ops": with_extra(c09_ops, eq_kinds=(9, 11), dep=True),
     "extra_checks": [c09_search],
     "exhaustive": False,
     "rule": "c09.hours: 60 consecutive days x 24 hours = every (day pillar, hour) combination, instant view and lunar-hour route, vs the rules; "
